@@ -9,12 +9,13 @@
 #include "opus_parse.h"
 #include "opus.h"
 #include "opus_private.h"
-static int g_count;
+static int g_count; int verif_K2;   /* ghost: arbitrary frame slot 0..47 */
+int verif_KP;   /* ghost: arbitrary index into the entries the parser writes */
 int opus_packet_parse_impl(const unsigned char *data, opus_int32 len, int self_delimited, unsigned char *out_toc,
       const unsigned char *frames[48], opus_int16 size[48], int *payload_offset, opus_int32 *packet_offset,
       const unsigned char **padding, opus_int32 *padding_len)
 {
-   int ret = nondet_int(), k, total = 0, off = nondet_int();
+   int ret = nondet_int(), total = 0, off = nondet_int();
    (void)self_delimited; (void)payload_offset; (void)packet_offset;
    if (size == NULL || len < 0) return OPUS_BAD_ARG;
    if (len == 0) return OPUS_INVALID_PACKET;
@@ -24,16 +25,29 @@ int opus_packet_parse_impl(const unsigned char *data, opus_int32 len, int self_d
    if (RFC_CODE(data[0]) == 3 && len < 2) return OPUS_INVALID_PACKET;
    __CPROVER_assume(ret * RFC_SPF48(data[0]) <= 5760);
    __CPROVER_assume(ret == (RFC_CODE(data[0]) == 0 ? 1 : RFC_CODE(data[0]) < 3 ? 2 : (data[1] & 0x3F)));
-   for (k = 0; k < 48; k++) if (k < ret) {
-      size[k] = nondet_short(); __CPROVER_assume(0 <= size[k] && size[k] <= 1275);
-      if (frames) frames[k] = data + off + total;
-      total += size[k]; }
-   __CPROVER_assume(off + total <= len);
+   /* the parser writes count sizes (and frame pointers) through the pointers it is handed: the whole written range must be
+      writable -- this is where "at most 48 frames" matters -- and an arbitrary entry verif_KP satisfies the C06 clauses */
+   __CPROVER_assert(__CPROVER_w_ok(size, ret * sizeof(opus_int16)), "parser writes count sizes inside the array it was handed");
+   __CPROVER_havoc_slice(size, ret * sizeof(opus_int16));
+   if (frames) { __CPROVER_assert(__CPROVER_w_ok(frames, ret * sizeof(*frames)), "parser writes count frame pointers inside the array it was handed");
+                 __CPROVER_havoc_slice(frames, ret * sizeof(*frames)); }
+   total = nondet_int(); __CPROVER_assume(0 <= total && total <= 1275 * ret);
+   __CPROVER_assume(verif_KP < 0 || verif_KP >= ret || (0 <= size[verif_KP] && size[verif_KP] <= 1275));
    if (padding) { *padding = data + off + total; *padding_len = nondet_int(); __CPROVER_assume(0 <= *padding_len && off + total + *padding_len <= len); }
    if (out_toc) *out_toc = data[0];
    g_count = ret;
    return ret;
 }
+#undef  OPUS_VERIF_LOOP_rp_cat_fill
+#define OPUS_VERIF_LOOP_rp_cat_fill \
+  __CPROVER_assigns(curr_nb_frames, __CPROVER_object_whole(rp)) \
+  __CPROVER_loop_invariant(1 <= curr_nb_frames && curr_nb_frames <= 48 && 0 <= rp->nb_frames && rp->nb_frames + curr_nb_frames <= 48) \
+  __CPROVER_loop_invariant(rp->nb_frames + curr_nb_frames == __CPROVER_loop_entry(rp->nb_frames) + __CPROVER_loop_entry(curr_nb_frames)) \
+  __CPROVER_loop_invariant(rp->toc == __CPROVER_loop_entry(rp->toc) && rp->framesize == __CPROVER_loop_entry(rp->framesize)) \
+  __CPROVER_loop_invariant(rp->len[verif_K2] == __CPROVER_loop_entry(rp->len[verif_K2]) && rp->frames[verif_K2] == __CPROVER_loop_entry(rp->frames[verif_K2])) \
+  __CPROVER_loop_invariant(verif_K2 > __CPROVER_loop_entry(rp->nb_frames) || (rp->padding_len[verif_K2] == __CPROVER_loop_entry(rp->padding_len[verif_K2]) && rp->paddings[verif_K2] == __CPROVER_loop_entry(rp->paddings[verif_K2]))) \
+  __CPROVER_loop_invariant((verif_K2 > __CPROVER_loop_entry(rp->nb_frames) && verif_K2 <= rp->nb_frames) ==> (rp->padding_len[verif_K2] == 0 && rp->paddings[verif_K2] == NULL)) \
+  __CPROVER_decreases(curr_nb_frames)
 #define opus_packet_parse_impl opus_packet_parse_impl_REAL_UNUSED
 #include "/repo/src/opus.c"
 #undef opus_packet_parse_impl
@@ -54,7 +68,7 @@ void h_cat(void)
    __CPROVER_assume(k >= rp.nb_frames || (0 <= rp.len[k] && rp.len[k] <= 1275 && rp.padding_len[k] >= 0));
    __CPROVER_assume(len <= 4000);
    data = malloc(len > 0 ? len : 1); __CPROVER_assume(data != NULL);
-   old = rp; g_count = 0;
+   old = rp; g_count = 0; verif_KP = k - rp.nb_frames; verif_K2 = k;
    ret = opus_repacketizer_cat_impl(&rp, data, len, sd);
    __CPROVER_assert(ret == OPUS_OK || ret == OPUS_INVALID_PACKET, "cat returns OPUS_OK or OPUS_INVALID_PACKET");
    __CPROVER_assert(RP_OK(&rp), "representation invariant preserved (at most 48 frames / 120 ms)");
